@@ -212,4 +212,24 @@ func (p *Prep) addOldDaemonSet() {
 	p.C.Add(ds)
 }
 
+// addNamesakeDaemonSet puts a DaemonSet of the same name, with the same selector and one old Running pod per given
+// node, into another namespace: none of it belongs to the migration the ExtendedDaemonSet declared.
+func (p *Prep) addNamesakeDaemonSet(ns string, nodes []string) {
+	p.C.Add(&appsv1.DaemonSet{ObjectMeta: metav1.ObjectMeta{Namespace: ns, Name: "old-ds", UID: "namesake-ds-uid"},
+		Spec: appsv1.DaemonSetSpec{Selector: &metav1.LabelSelector{MatchLabels: map[string]string{"app": "old-agent"}}}})
+	now := p.C.Now()
+	started := metav1.NewTime(now.Add(-3 * time.Hour).Truncate(time.Second))
+	ctrl := true
+	for i, node := range nodes {
+		pod := &corev1.Pod{ObjectMeta: metav1.ObjectMeta{Namespace: ns, Name: fmt.Sprintf("oldds-namesake-%02d", i), CreationTimestamp: started, Labels: map[string]string{"app": "old-agent"},
+			OwnerReferences: []metav1.OwnerReference{{APIVersion: "apps/v1", Kind: "DaemonSet", Name: "old-ds", UID: "namesake-ds-uid", Controller: &ctrl}}},
+			Spec: corev1.PodSpec{NodeName: node, Containers: []corev1.Container{{Name: "agent", Image: "old:1"}}, Tolerations: oracle.DefaultTolerations}}
+		pod.Status.Phase = corev1.PodRunning
+		pod.Status.StartTime = &started
+		pod.Status.Conditions = []corev1.PodCondition{{Type: corev1.PodScheduled, Status: corev1.ConditionTrue}, {Type: corev1.PodReady, Status: corev1.ConditionTrue, LastTransitionTime: started}}
+		pod.Status.ContainerStatuses = []corev1.ContainerStatus{{Name: "agent", Ready: true, State: corev1.ContainerState{Running: &corev1.ContainerStateRunning{StartedAt: started}}}}
+		p.C.Add(pod)
+	}
+}
+
 func intstrOf(i int) intstr.IntOrString { return intstr.FromInt(i) }
